@@ -110,7 +110,9 @@ func hexs(s string) string {
 var epoch = "0x" + strings.Repeat("ab", 32)
 
 func genTarget(r *hx.Rand) string {
+	eons := []string{"1", "0", "17", "+1", "-0", "007", "+0042", "1e3", "1.0", "9223372036854775807", "%31", "1%20"}
 	base := []string{"/ping", "/shutdown", "/eons", "/decryptionTrigger", "/decryptionKey/1/" + epoch, "/decryptionKey/0/" + epoch,
+		"/decryptionKey/" + eons[r.Intn(len(eons))] + "/" + epoch, "/decryptionKey/" + eons[r.Intn(len(eons))] + "/" + epoch,
 		"/decryptionKey/abc/" + epoch, "/decryptionKey/1/zz", "/decryptionKey/{eon}/{epochID}", "/decryptionKey//" + epoch, "/decryptionKey/1", "/", "", "/api.json", "/metrics", "/unknown"}
 	p := base[r.Intn(len(base))]
 	nmut := 0
@@ -244,6 +246,27 @@ func Run(cfg Config) (int, error) {
 			res.Sample(map[string]interface{}{"write": w, "method": m, "target": t, "status": o.Status, "reached": o.Reached})
 		}
 	}
+	// determinism: the same request on the same server is answered the same way later on
+	for j := 0; j < len(items) && j < 400 && len(res.Violations) == 0; j++ {
+		it := items[r.Intn(len(items))]
+		if it.out.Reached == "shutdown" || it.out.Reached == "trigger" {
+			continue
+		}
+		b := ""
+		if it.method == "POST" {
+			b = body
+		}
+		o2, err := servers[it.write].do(it.method, it.target, b)
+		res.Count("determinism-recheck")
+		if err == nil && (o2.Status != it.out.Status || o2.Reached != it.out.Reached) && !(it.method == "POST" && (o2.Status == 400 || it.out.Status == 400)) {
+			if !it.write && (o2.Reached == "shutdown" || o2.Reached == "trigger") {
+				violate("spec", "write-op-reached", fmt.Sprintf("write operations disabled but %s %s reached the %s operation (after other requests)", it.method, it.target, o2.Reached), map[string]interface{}{"requests_so_far": history(items, it)})
+			} else {
+				violate("spec", "not-deterministic", fmt.Sprintf("the same request is answered differently later (write=%v %s %s): first %+v then %+v", it.write, it.method, it.target, it.out, o2), map[string]interface{}{"requests_so_far": history(items, it)})
+			}
+			break
+		}
+	}
 	model, err := hx.RunLean(cfg.Lean, lines)
 	if err != nil {
 		return 2, err
@@ -260,6 +283,12 @@ func Run(cfg Config) (int, error) {
 		dec, disp := model[k], model[k+1]
 		k += 2
 		res.Traces++
+		readOnlyHandler := disp == "wrapper.Ping" || disp == "wrapper.GetEons" || disp == "wrapper.GetDecryptionKey"
+		if readOnlyHandler && (it.out.Body == "Endpoint not found" || it.out.Body == "Endpoint not enabled") {
+			violate("spec", "readonly-refused", fmt.Sprintf("the gate refused a read-only operation the router serves (write=%v %s %s): %+v", it.write, it.method, it.target, it.out),
+				map[string]interface{}{"requests_so_far": history(items, it)})
+			break
+		}
 		bad := ""
 		switch {
 		case it.out.Reached != "" && dec != "allow":
@@ -287,6 +316,18 @@ func Run(cfg Config) (int, error) {
 		return 1, nil
 	}
 	return 0, nil
+}
+
+// history lists the requests issued on the same server before (and including) the given one.
+func history[T any](items []T, upTo T) []string {
+	out := []string{}
+	for _, x := range items {
+		out = append(out, fmt.Sprintf("%+v", x))
+		if len(out) > 400 {
+			out = out[len(out)-400:]
+		}
+	}
+	return out
 }
 
 var _ = bytes.NewReader
